@@ -18,6 +18,7 @@
 //   life|<order>                       every admissible interleaving of create/solve/destroy of a parameter list,
 //                                      two solvers and a preconditioner gives the isolated results; heap returns to baseline
 #include <sys/mman.h>
+#include <sys/resource.h>
 #include <signal.h>
 #include <unistd.h>
 #include <cstdio>
@@ -86,7 +87,23 @@ static void segv_handler(int, siginfo_t *si, void *) {
     if (write(2, buf, n)) {}
     _exit(97);
 }
+// A damaged index array can make the library allocate without bound or loop: every child is confined.
+static void child_limits() {
+    struct rlimit as = {(rlim_t)3 << 30, (rlim_t)3 << 30}; setrlimit(RLIMIT_AS, &as);
+    struct rlimit cpu = {20, 25}; setrlimit(RLIMIT_CPU, &cpu);
+    struct rlimit core = {0, 0}; setrlimit(RLIMIT_CORE, &core);
+}
+static int g_abnormal = 0;                  // children that did not finish normally (this process)
+static const int MAX_ABNORMAL = 24;
+static bool too_many_abnormal() {
+    static bool said = false;
+    if (g_abnormal < MAX_ABNORMAL) return false;
+    if (!said) { said = true; vf::cap("enumeration stopped in this shard after " + std::to_string(MAX_ABNORMAL) + " children ended by signal / time-out / abnormal exit (each is reported)"); }
+    return true;
+}
+
 static void install_segv() {
+    child_limits();
     struct sigaction sa; std::memset(&sa, 0, sizeof sa);
     sa.sa_sigaction = segv_handler; sa.sa_flags = SA_SIGINFO;
     sigaction(SIGSEGV, &sa, nullptr); sigaction(SIGBUS, &sa, nullptr);
@@ -177,6 +194,12 @@ static void json_emit(const ptree &p, std::ostringstream &o, int ind) {
     }
     o << std::string(ind, ' ') << "}";
 }
+static void dump_tree_rec(const ptree &p, const std::string &pre, std::string &out) {
+    if (p.empty()) { out += pre + "=" + p.data() + ";"; return; }
+    for (auto &kv : p) dump_tree_rec(kv.second, pre.empty() ? kv.first : pre + "." + kv.first, out);
+}
+static std::string dump_tree(const ptree &p) { std::string s; if (!p.empty()) dump_tree_rec(p, "", s); return s; }
+
 static std::string json_text(const PSet &ps) {
     // nested JSON object from dotted names; numbers as bare JSON numbers (17 significant digits of the float's value), strings quoted
     ptree p;
@@ -215,7 +238,11 @@ static void capi_case(Out o, const Sys &s, const PSet &ps, const std::string &op
     int nnz = s.ptr[n];
     // --- C++ reference (plain vectors, 0-based) ---
     size_t nn = n;
-    ptree cp = cpp_params(ps);
+    // The C++ side receives the property tree exactly as the C setters built it (the handle IS a ptree); whether the
+    // setters encode the caller's values faithfully is the subject of the param|* cases.
+    amgclHandle prm = c_params(ps);
+    ptree cp = prm ? *static_cast<ptree*>(prm) : ptree();
+    if (prm && dump_tree(cp) != dump_tree(cpp_params(ps))) o.count("setter_tree_differs_from_ptree_put_of_same_typed_values");
     std::vector<double> rx(n, 0.0), rx2;
     size_t rit = 0, rit2 = 0; double rres = 0, rres2 = 0;
     std::string rreport;
@@ -253,7 +280,6 @@ static void capi_case(Out o, const Sys &s, const PSet &ps, const std::string &op
     std::string creport;
     std::vector<double> x_after_first;
     try {
-        amgclHandle prm = c_params(ps);
         if (op == "precond") {
             amgclHandle h = base ? amgcl_precond_create_f(n, ptr, col, val, prm) : amgcl_precond_create(n, ptr, col, val, prm);
             if (prm) amgcl_params_destroy(prm);
@@ -307,6 +333,7 @@ static void capi_case(Out o, const Sys &s, const PSet &ps, const std::string &op
 }
 
 static void relay(const fr::Result &r, const std::string &key, const char *segv_sub) {
+    if (r.kind != fr::OK && r.kind != fr::EXC) ++g_abnormal;
     if (r.kind == fr::EXIT && r.code == 97) { vf::fail(segv_sub, key, "access outside a user array: " + r.err.substr(0, 300)); return; }
     if (r.kind != fr::OK) { vf::fail("capi.abnormal_termination", key, std::string(r.kind_name()) + " code " + std::to_string(r.code) + " " + r.text.substr(0, 300) + " " + r.err.substr(0, 300)); return; }
     std::istringstream in(r.text); std::string l;
@@ -322,8 +349,9 @@ static void run_capi() {
     for (const Sys &s : systems()) for (const PSet &ps : psets()) for (const char *op : {"solve", "solve_mtx", "precond"})
         for (int base = 0; base < 2; ++base) for (int tail = 1; tail >= 0; --tail) {
             std::string key = vf::KS() << "capi|" << s.name << "|" << ps.name << "|" << op << "|" << base << "|" << (tail ? "tail" : "head");
+            if (too_many_abnormal() && !vf::replaying()) continue;
             if (!vf::take([&]{ return key; })) continue;
-            fr::Result r = fr::run([&](fr::Out &o) { capi_case(Out{o}, s, ps, op, base, tail != 0); }, 120.0);
+            fr::Result r = fr::run([&](fr::Out &o) { capi_case(Out{o}, s, ps, op, base, tail != 0); }, 40.0);
             relay(r, key, "bounds.access_outside_user_array");
             vf::nontrivial(vf::hstr(key));
         }
@@ -443,7 +471,7 @@ static void run_params() {
         if (ps.null_handle || ps.e.empty()) continue;
         std::string key = vf::KS() << "param|" << ps.name << "|" << via;
         if (!vf::take([&]{ return key; })) continue;
-        fr::Result r = fr::run([&](fr::Out &o) { param_case(Out{o}, ps, via); }, 120.0);
+        fr::Result r = fr::run([&](fr::Out &o) { child_limits(); param_case(Out{o}, ps, via); }, 40.0);
         relay(r, key, "bounds.access_outside_user_array");
         vf::nontrivial(vf::hstr(key));
     }
@@ -505,12 +533,14 @@ static void run_life() {
     std::vector<std::vector<int>> orders; { std::vector<int> cur; gen_orders(cur, 0, orders, 11); }
     size_t step = 1;
     for (size_t oi = 0; oi < orders.size(); oi += step) {
+        if (too_many_abnormal() && !vf::replaying()) continue;
         if (!vf::take_group()) continue;
         // a group = 1 order; cheap enough to fork per order
         std::string key;
         { vf::KS k; k << "life|"; for (int op : orders[oi]) k << opname(op) << ","; key = k; }
         if (!vf::take_in_group([&]{ return key; })) continue;
         fr::Result r = fr::run([&](fr::Out &o0) {
+            child_limits();
             Out o{o0};
             const std::vector<int> iso = {0, 1, 5, 8, 2, 6, 9, 3, 7, 10, 4};
             Iso ref, warm, got;
@@ -529,7 +559,7 @@ static void run_life() {
             if (l2 != l1) o.fail("life.heap_not_returned", "this order leaves " + std::to_string(l2 - l1) + " live heap blocks after every handle was destroyed");
             if (ref.c1.iterations >= 1) o.count("lifecycle_solves_with_iterations");
             o.count("lifecycle_orders_run");
-        }, 120.0);
+        }, 40.0);
         relay(r, key, "bounds.access_outside_user_array");
         vf::nontrivial(vf::hstr(key));
     }
